@@ -123,7 +123,121 @@ func isSyncMapCall(call ssa.CallInstruction, method string) (field string, ok bo
 // loop-carried string (a phi one of whose inputs is a call applied to the phi itself - the running text folded
 // over the changes).  The loop may live in the handler or in a helper it calls.  Returns the handler (the
 // enclosing server method that receives the notification's change list), the phi, the store site and the field.
-func changeHandler(p *Prog) (*ssa.Function, *ssa.Phi, ssa.CallInstruction, string) {
+// carriedText: the running text of the change loop.  In register form it is a phi at the loop header; when the
+// variable is captured by a function literal it stays a memory cell that is stored to inside the loop.
+type carriedText struct {
+	phi    *ssa.Phi
+	cell   *ssa.Alloc
+	Edges  []ssa.Value     // the values the running text is set to
+	header *ssa.BasicBlock // the header of the loop over the changes
+}
+
+func (ct *carriedText) Pos() token.Pos {
+	if ct.phi != nil {
+		return ct.phi.Pos()
+	}
+	return ct.cell.Pos()
+}
+func (ct *carriedText) Parent() *ssa.Function  { return ct.header.Parent() }
+func (ct *carriedText) Block() *ssa.BasicBlock { return ct.header }
+
+// is: v is the running text (the phi, or a load of the cell)
+func (ct *carriedText) is(v ssa.Value) bool {
+	if ct.phi != nil {
+		return v == ssa.Value(ct.phi)
+	}
+	u, ok := v.(*ssa.UnOp)
+	return ok && u.Op == token.MUL && u.X == ssa.Value(ct.cell)
+}
+
+// current: argument a of call is the value of the running text at the time of the call (for a cell: a load in the
+// call's block with no store into the cell in between - a copy taken before the loop is a stale text)
+func (ct *carriedText) current(a ssa.Value, call *ssa.Call) bool {
+	if !ct.is(a) {
+		return false
+	}
+	if ct.phi != nil {
+		return true
+	}
+	u := a.(*ssa.UnOp)
+	if u.Block() != call.Block() {
+		return false
+	}
+	after := false
+	for _, ins := range call.Block().Instrs {
+		if ins == ssa.Instruction(u) {
+			after = true
+			continue
+		}
+		if ins == ssa.Instruction(call) {
+			return after
+		}
+		if st, ok := ins.(*ssa.Store); ok && after && st.Addr == ssa.Value(ct.cell) {
+			return false
+		}
+	}
+	return false
+}
+
+// cellCarried: the string variable `cell` is set, inside a loop, to the result of a call applied to its own value.
+func cellCarried(cell *ssa.Alloc) *carriedText {
+	if cell.Referrers() == nil {
+		return nil
+	}
+	ct := &carriedText{cell: cell}
+	var inLoop *ssa.BasicBlock
+	for _, r := range *cell.Referrers() {
+		if mc, ok := r.(*ssa.MakeClosure); ok {
+			// a function literal that captures the variable may set it too
+			if fn, ok := mc.Fn.(*ssa.Function); ok {
+				for i, bnd := range mc.Bindings {
+					if bnd != ssa.Value(cell) || i >= len(fn.FreeVars) || fn.FreeVars[i].Referrers() == nil {
+						continue
+					}
+					for _, r2 := range *fn.FreeVars[i].Referrers() {
+						if st, ok := r2.(*ssa.Store); ok && st.Addr == ssa.Value(fn.FreeVars[i]) {
+							ct.Edges = append(ct.Edges, st.Val)
+						}
+					}
+				}
+			}
+			continue
+		}
+		st, ok := r.(*ssa.Store)
+		if !ok || st.Addr != ssa.Value(cell) {
+			continue
+		}
+		ct.Edges = append(ct.Edges, st.Val)
+		if c2, ok := st.Val.(*ssa.Call); ok && inCycle(st.Block()) {
+			for _, a := range c2.Common().Args {
+				if ct.current(a, c2) {
+					inLoop = st.Block()
+				}
+			}
+		}
+	}
+	if inLoop == nil {
+		return nil
+	}
+	// the innermost loop header (the block of a range index) that dominates the store and lies on its cycle
+	for _, b := range cell.Parent().Blocks {
+		isHeader := false
+		for _, ins := range b.Instrs {
+			if p2, ok := ins.(*ssa.Phi); ok && p2.Comment == "rangeindex" {
+				isHeader = true
+			}
+		}
+		if isHeader && b.Dominates(inLoop) && reachesBlock(inLoop, b) && (ct.header == nil || ct.header.Dominates(b)) {
+			ct.header = b
+		}
+	}
+	if ct.header == nil {
+		return nil
+	}
+	return ct
+}
+
+func changeHandler(p *Prog) (*ssa.Function, *carriedText, ssa.CallInstruction, string) {
 	spk := p.SSAPkg("internal/server")
 	cgv := cgView{&Ctx{P: p}}
 	hasChangeList := func(f *ssa.Function) bool {
@@ -159,8 +273,9 @@ func changeHandler(p *Prog) (*ssa.Function, *ssa.Phi, ssa.CallInstruction, strin
 				if !ok || op != "Store" || val == nil || !strings.HasPrefix(fld, "server.Server.") {
 					continue
 				}
-				var phi *ssa.Phi
-				for v := range backSlice(val) {
+				var phi *carriedText
+				sl := backSlice(val)
+				for v := range sl {
 					ph, ok := v.(*ssa.Phi)
 					if !ok || types.TypeString(ph.Type(), nil) != "string" {
 						continue
@@ -169,8 +284,18 @@ func changeHandler(p *Prog) (*ssa.Function, *ssa.Phi, ssa.CallInstruction, strin
 						if c2, ok := e.(*ssa.Call); ok {
 							for _, a := range c2.Common().Args {
 								if a == ssa.Value(ph) {
-									phi = ph
+									phi = &carriedText{phi: ph, Edges: ph.Edges, header: ph.Block()}
 								}
+							}
+						}
+					}
+				}
+				if phi == nil {
+					// the variable is captured by a function literal: it stays a cell in memory
+					for v := range sl {
+						if al, ok := v.(*ssa.Alloc); ok && types.TypeString(al.Type(), nil) == "*string" {
+							if ct := cellCarried(al); ct != nil {
+								phi = ct
 							}
 						}
 					}
@@ -213,7 +338,7 @@ func ruleC01(c *Ctx) {
 		isApplier := false
 		if x, ok := e.(*ssa.Call); ok {
 			for _, a := range x.Common().Args {
-				if a == ssa.Value(phi) {
+				if phi.current(a, x) {
 					isApplier = true
 				}
 			}
@@ -252,7 +377,7 @@ func ruleC01(c *Ctx) {
 	if applier != nil {
 		for _, a := range applier.Common().Args {
 			for v := range backSlice(a) {
-				if ph, ok := v.(*ssa.Phi); ok && ph != phi && ph.Block() == phi.Block() && ph.Comment != "rangeindex" {
+				if ph, ok := v.(*ssa.Phi); ok && ph != phi.phi && ph.Block() == phi.Block() && ph.Comment != "rangeindex" {
 					okEdges = false
 					kinds = append(kinds, "applier argument carried over from earlier changes ("+ph.Comment+")")
 				}
@@ -852,7 +977,9 @@ func ruleCacheFresh(c *Ctx, h *ssa.Function, docStore ssa.CallInstruction, docFi
 			// a cache filled by request handlers (hit short-circuits recomputation): the change handler must drop it
 			dropped := false
 			for _, u := range deletes[fld] {
-				if syncReach[u.f] {
+				// (a function literal counts only when the function that creates it is reached too: callbacks of
+				// sync.Map.Range are resolved context-insensitively)
+				if syncReach[u.f] && (u.f.Parent() == nil || syncReach[u.f.Parent()]) {
 					// unconditional within its function, and the call chain from the handler is unconditional at the handler level
 					dropped = true
 				}
@@ -863,9 +990,10 @@ func ruleCacheFresh(c *Ctx, h *ssa.Function, docStore ssa.CallInstruction, docFi
 				for _, ins := range b.Instrs {
 					if call, ok := ins.(*ssa.Call); ok && (b == docStore.Block() || (docStore.Parent() != h && !inCycle(b)) || b.Dominates(docStore.Block()) || docStore.Block().Dominates(b)) {
 						if cal := call.Common().StaticCallee(); cal != nil {
-							for f2 := range Reach(g, []*ssa.Function{cal}, true) {
+							sub := Reach(g, []*ssa.Function{cal}, true)
+							for f2 := range sub {
 								for _, u := range deletes[fld] {
-									if u.f == f2 {
+									if u.f == f2 && (f2.Parent() == nil || sub[f2.Parent()]) {
 										okLevel = true
 									}
 								}
